@@ -2,7 +2,7 @@
 From Coq Require Import String.
 From Coq Require Import NArith ZArith List Bool.
 From Coq.Strings Require Import Byte.
-From LV Require Import Lib.Bytes Lib.Decimal Model.C17 Proofs.C17_Int Proofs.C17_Bencode Proofs.C17_Msg Proofs.C17_Total Proofs.C17_Request.
+From LV Require Import Lib.Bytes Lib.Decimal Model.C17 Proofs.C17_Int Proofs.C17_Bencode Proofs.C17_Msg Proofs.C17_Prefix Proofs.C17_Total Proofs.C17_Request Proofs.C17_LRU.
 Import ListNotations.
 Local Open Scope N_scope.
 
@@ -15,23 +15,50 @@ Theorem C17_int_bound : NBOUND = 10 ^ N.of_nat 4300.
 Proof. exact NBOUND_eq. Qed.
 Print Assumptions C17_int_bound.
 
-(* One call of _bdecode on bencode(v) followed by ANY bytes T returns v and leaves T behind, preceded by the
-   'e' bytes the dict-end quirk leaves unread ([pending]); for every value whose dictionaries sit in tail
-   position ([wfq]), any nesting depth within the bound, any loop budget at least the encoding's length. *)
-Theorem C17_bdecode_bencode : forall v, wfq v -> forall steps depth T,
+(* One call of _bdecode on bencode(v) followed by ANY bytes T returns v and leaves exactly T, for EVERY value
+   (dictionaries and lists nested anywhere; [wfv] only asks what Python itself needs: integers and lengths within
+   the 4300 digit limit, int / bytes keys listed in key order without repetition), any nesting depth within the
+   bound, any loop budget at least the encoding's length. *)
+Theorem C17_bdecode_bencode : forall v, wfv v -> forall steps depth T,
   (depth_of v <= depth)%nat -> (length (benc v) <= steps)%nat ->
-  bdec steps depth (benc v ++ T) = Ok (v, es (pending v) ++ T).
+  bdec steps depth (benc v ++ T) = Ok (v, T).
 Proof. exact bdec_benc. Qed.
 Print Assumptions C17_bdecode_bencode.
 
 (* decode_datagram (encode m) = m for ALL well-formed requests (ping/store/findNode/findValue), responses
-   (any payload in [wfq]: contact lists of any length, peer pages, findValue dictionaries, tokens) and errors
+   (any payload in [wfv], nested dictionaries included: contact lists of any length, peer pages, findValue dictionaries, tokens) and errors
    (any valid UTF-8 texts), for every nesting bound that covers the message. *)
 Theorem C17_message_roundtrip : forall fuel m,
   wf_message m -> (message_depth m <= fuel)%nat ->
   decode_datagram fuel (encode_message m) = inl (raw_of_message m).
 Proof. exact decode_encode_message. Qed.
 Print Assumptions C17_message_roundtrip.
+
+(* Truncated datagrams are dropped: EVERY proper prefix of the datagram of a well-formed message (any request,
+   response payload, error) is rejected by decode_datagram -- in particular the datagram without its last byte
+   (which the decoder accepted before fix 67aa5e2). *)
+Theorem C17_truncation_is_rejected : forall fuel m k,
+  wf_message m -> (message_depth m <= fuel)%nat -> (k < length (encode_message m))%nat ->
+  exists e, decode_datagram fuel (firstn k (encode_message m)) = inr e.
+Proof. exact truncated_message_rejected. Qed.
+Print Assumptions C17_truncation_is_rejected.
+
+Theorem C17_last_byte_cut_is_rejected : forall fuel m,
+  wf_message m -> (message_depth m <= fuel)%nat ->
+  exists e, decode_datagram fuel (removelast (encode_message m)) = inr e.
+Proof. exact last_byte_cut_rejected. Qed.
+Print Assumptions C17_last_byte_cut_is_rejected.
+
+(* the same one level down: on a proper prefix of bencode(v) the decoder fails, or (a cut-off string, read as a
+   shorter one) swallows everything so that the enclosing loop fails; for lists and dictionaries it always fails *)
+Theorem C17_bdecode_prefix : forall v, wfv v -> forall steps depth p q,
+  p ++ q = benc v -> q <> [] -> (depth_of v <= depth)%nat -> (length p <= steps)%nat ->
+  match v with
+  | BList _ | BDict _ => is_err (bdec steps depth p)
+  | _ => stuck (bdec steps depth p)
+  end.
+Proof. exact bdec_prefix. Qed.
+Print Assumptions C17_bdecode_prefix.
 
 (* instances: every request and every error needs nesting 4 resp. 2; contact lists and peer pages of ANY length *)
 Theorem C17_request_roundtrip : forall fuel rpc node r,
@@ -212,6 +239,61 @@ Theorem C17_protocol_requests_valid : forall own rpc node r,
 Proof. exact protocol_requests_valid. Qed.
 Print Assumptions C17_protocol_requests_valid.
 
+(* The error reply: cutting a text after n CHARACTERS keeps it valid UTF-8 (a cut after n bytes does not), so the
+   text echoed for an unknown method of any length -- 'Invalid method: <name>' cut to 256 characters -- always
+   builds a decodable ErrorDatagram of at most 1024 text bytes. *)
+Theorem C17_truncation_by_characters_keeps_utf8 : forall n s, utf8_valid s = true -> utf8_valid (utf8_take n s) = true.
+Proof. exact utf8_take_valid. Qed.
+Print Assumptions C17_truncation_by_characters_keeps_utf8.
+
+Theorem C17_error_text_is_valid_utf8 : forall method,
+  utf8_valid method = true ->
+  utf8_valid (invalid_method_text method) = true
+  /\ (length (invalid_method_text method) <= 1024)%nat
+  /\ exists t, s_invalid_method ++ method = invalid_method_text method ++ t.
+Proof. exact invalid_method_text_ok. Qed.
+Print Assumptions C17_error_text_is_valid_utf8.
+
+(* "With the sender's failure recorded" on a long-running node: the failure records live in lbry.utils.LRUCache
+   (capacity CACHE_SIZE = 16384).  For every capacity and every table, however full: the key that was just set is
+   present with its value; the capacity is respected; unless the oldest entry had to make room every other key
+   keeps its value; hence report_failure always leaves a record (previous newest, now) for the sender. *)
+Theorem C17_lru_set_keeps_the_new_entry :
+  forall (K V : Type) (keqb : K -> K -> bool), (forall a b, keqb a b = true <-> a = b) ->
+  forall cap (c : lru K V) k v, lru_peek K V keqb (lru_set K V keqb cap c k v) k = Some v.
+Proof. exact lru_set_peek. Qed.
+Print Assumptions C17_lru_set_keeps_the_new_entry.
+
+Theorem C17_lru_capacity_respected :
+  forall (K V : Type) (keqb : K -> K -> bool), (forall a b, keqb a b = true <-> a = b) ->
+  forall cap (c : lru K V) k v, (1 <= cap)%nat -> (length c <= cap)%nat ->
+  (length (lru_set K V keqb cap c k v) <= cap)%nat.
+Proof. exact lru_set_length. Qed.
+Print Assumptions C17_lru_capacity_respected.
+
+Theorem C17_lru_other_keys_kept :
+  forall (K V : Type) (keqb : K -> K -> bool), (forall a b, keqb a b = true <-> a = b) ->
+  forall cap (c : lru K V) k v k', k' <> k ->
+  (lru_has K V keqb c k = true \/ (length c < cap)%nat) ->
+  lru_peek K V keqb (lru_set K V keqb cap c k v) k' = lru_peek K V keqb c k'.
+Proof. exact lru_set_other. Qed.
+Print Assumptions C17_lru_other_keys_kept.
+
+Theorem C17_failure_recorded_in_a_full_table :
+  forall (K : Type) (keqb : K -> K -> bool), (forall a b, keqb a b = true <-> a = b) ->
+  forall cap (c : lru K (option N * option N)) addr now,
+  lru_peek K _ keqb (report_failure keqb cap c addr now) addr
+  = Some (match lru_peek K _ keqb c addr with Some (_, last) => last | None => None end, Some now).
+Proof. exact report_failure_recorded. Qed.
+Print Assumptions C17_failure_recorded_in_a_full_table.
+
+Theorem C17_failure_table_bounded :
+  forall (K : Type) (keqb : K -> K -> bool), (forall a b, keqb a b = true <-> a = b) ->
+  forall cap (c : lru K (option N * option N)) addr now,
+  (1 <= cap)%nat -> (length c <= cap)%nat -> (length (report_failure keqb cap c addr now) <= cap)%nat.
+Proof. exact report_failure_bounded. Qed.
+Print Assumptions C17_failure_table_bounded.
+
 (* every ASCII text is a valid error text *)
 Theorem C17_ascii_is_utf8 : forall s, Forall (fun b => N_of_byte b <= 127) s -> utf8_valid s = true.
 Proof. exact ascii_utf8. Qed.
@@ -232,12 +314,34 @@ Definition node48 : bytes := repeat (byte_of_N 110) 48.
 Example C17_ex_ping : decode_datagram 10 (encode_message (Request rpc20 node48 Ping))
   = inl (RReq rpc20 node48 (BStr s_ping) (BList [pv_dict])).
 Proof. vm_compute. reflexivity. Qed.
-(* the last byte cut off still decodes to the same message (dict end index), two bytes cut off do not *)
-Example C17_ex_ping_cut1 : decode_datagram 10 (removelast (encode_message (Request rpc20 node48 Ping)))
-  = inl (RReq rpc20 node48 (BStr s_ping) (BList [pv_dict])).
+(* the last byte cut off is rejected (it decoded to the same message before fix 67aa5e2), so are two bytes *)
+Example C17_ex_ping_cut1 : decode_datagram 10 (removelast (encode_message (Request rpc20 node48 Ping))) = inr EIndex.
 Proof. vm_compute. reflexivity. Qed.
 Example C17_ex_ping_cut2 : decode_datagram 10 (removelast (removelast (encode_message (Request rpc20 node48 Ping))))
   = inr EIndex.
+Proof. vm_compute. reflexivity. Qed.
+(* nested dictionaries in non-tail position round-trip: {a: {b: 1}, c: 2} and {a: [{b: 1}, 5], c: 2} *)
+Definition nested1 : list (bval * bval) :=
+  [(BStr (lit "a"), BDict [(BStr (lit "b"), BInt 1)]); (BStr (lit "c"), BInt 2)].
+Definition nested2 : list (bval * bval) :=
+  [(BStr (lit "a"), BList [BDict [(BStr (lit "b"), BInt 1)]; BInt 5]); (BStr (lit "c"), BInt 2)].
+Example C17_ex_nested1 : bdecode 10 (benc (BDict nested1)) = Ok nested1. Proof. vm_compute. reflexivity. Qed.
+Example C17_ex_nested2 : bdecode 10 (benc (BDict nested2)) = Ok nested2. Proof. vm_compute. reflexivity. Qed.
+(* REFUTED, on the model of the decoder as it was before 67aa5e2 (dict branch returned the index OF its 'e'):
+   it accepted a ping without its last byte as the same dictionary, lost key c of {a: {b: 1}, c: 2} and could not
+   read {a: [{b: 1}, 5], c: 2} at all *)
+Example C17_old_decoder_refuted_truncation :
+  bdecode_old 10 (removelast (encode_message (Request rpc20 node48 Ping)))
+  = bdecode_old 10 (encode_message (Request rpc20 node48 Ping)).
+Proof. vm_compute. reflexivity. Qed.
+Example C17_old_decoder_refuted_truncation_accepts :
+  match bdecode_old 10 (removelast (encode_message (Request rpc20 node48 Ping))) with Ok _ => true | Err _ => false end = true.
+Proof. vm_compute. reflexivity. Qed.
+Example C17_old_decoder_refuted_nested1 :
+  bdecode_old 10 (benc (BDict nested1)) = Ok [(BStr (lit "a"), BDict [(BStr (lit "b"), BInt 1)])].
+Proof. vm_compute. reflexivity. Qed.
+Example C17_old_decoder_refuted_nested2 :
+  bdecode_old 10 (benc (BDict nested2)) = Err EDecode.
 Proof. vm_compute. reflexivity. Qed.
 (* a findValue response: the dictionary is in tail position, its values are lists of lists *)
 Definition fv_payload : bval :=
@@ -261,14 +365,25 @@ Example C17_ex_lax_int1 : py_int_of_bytes (lit " +1_0 ") = Some 10%Z. Proof. vm_
 Example C17_ex_lax_int2 : py_int_of_bytes (lit "1__0") = None. Proof. vm_compute. reflexivity. Qed.
 Example C17_ex_lax_int3 : py_int_of_bytes (lit "- 1") = None. Proof. vm_compute. reflexivity. Qed.
 Example C17_ex_lax_int4 : py_int_of_bytes (lit "") = None. Proof. vm_compute. reflexivity. Qed.
-(* every truncation of this ping by two or more bytes is dropped (an instance, not a general claim) *)
+(* every truncation of this ping is dropped (an instance of C17_truncation_is_rejected, by computation) *)
 Example C17_ex_truncations_of_ping :
   let p := encode_message (Request rpc20 node48 Ping) in
   forallb (fun k => match decode_datagram 10 (firstn k p) with inr _ => true | inl _ => false end)
-          (seq 0 (length p - 1)) = true.
+          (seq 0 (length p)) = true.
 Proof. vm_compute. reflexivity. Qed.
 (* the seeded scenario: ping mutated to pinf *)
 Example C17_ex_pinf : request_valid node48 (RReq rpc20 rpc20 (BStr (lit "pinf")) (BList [pv_dict])) = false.
 Proof. vm_compute. reflexivity. Qed.
 Example C17_ex_ping_valid : request_valid node48 (RReq rpc20 rpc20 (BStr s_ping) (BList [pv_dict])) = true.
+Proof. vm_compute. reflexivity. Qed.
+(* the byte-wise cut of the seeded change splits the 2-byte character that straddles byte 256 *)
+Example C17_ex_byte_cut_invalid :
+  utf8_valid (firstn 256 (s_invalid_method ++ repeat (byte_of_N 97) 239 ++ [byte_of_N 195; byte_of_N 169])) = false.
+Proof. vm_compute. reflexivity. Qed.
+Example C17_ex_char_cut_valid :
+  utf8_valid (invalid_method_text (repeat (byte_of_N 97) 239 ++ [byte_of_N 195; byte_of_N 169; byte_of_N 195; byte_of_N 169])) = true.
+Proof. vm_compute. reflexivity. Qed.
+(* a full table of capacity 3: a fourth sender is recorded, the oldest record makes room; a known sender is updated *)
+Example C17_ex_full_failure_table : failures_run 3 [10; 11; 12; 13; 11]
+  = [(12, (None, Some 3)); (13, (None, Some 4)); (11, (Some 2, Some 5))].
 Proof. vm_compute. reflexivity. Qed.
